@@ -80,6 +80,13 @@ type node struct {
 	why          map[string]reason
 	entry        set // must-hold-at-entry
 	entryTop     bool
+
+	// by-products for Atomicity.v (atom.go); recorded for unspecialised nodes only
+	atoms     []atomEv
+	acqs      []heldReg
+	puts      []poolPut
+	atomicOps []atomicOp
+	aerrs     []string
 }
 
 type reason struct {
@@ -121,6 +128,8 @@ type frame struct {
 	exits    []set
 	addEntry bool
 	inSum    bool
+	labels   map[string]string // lenient mode: held set (key) at each label seen so far
+	gotos    map[string][]set  // lenient mode: held sets of forward gotos waiting for their label
 }
 
 type breakable struct {
@@ -141,6 +150,15 @@ type walker struct {
 	brk    []*breakable
 	label  string
 	active map[*ast.FuncLit]bool
+
+	// Atomicity by-products: last acquisition site and mode per mutex (path-insensitive),
+	// access kind handed down to the next expr call, context of the literal being walked
+	sites map[string]token.Pos
+	modes map[string]string
+	acc   string
+	ctx   string
+	// the operand of a sync/atomic function: not reported as a plain access
+	skipSel *ast.SelectorExpr
 }
 
 const (
@@ -160,7 +178,7 @@ func (p *pkg) walk(n *node) {
 		return
 	}
 	n.walked = true
-	w := &walker{p: p, n: n, file: p.declFile[n.decl], active: map[*ast.FuncLit]bool{}}
+	w := &walker{p: p, n: n, file: p.declFile[n.decl], active: map[*ast.FuncLit]bool{}, sites: map[string]token.Pos{}, modes: map[string]string{}}
 	sc := &scope{m: map[string]binding{}}
 	if n.decl.Recv != nil {
 		for _, fl := range n.decl.Recv.List {
@@ -204,6 +222,7 @@ func (w *walker) runBody(ft *ast.FuncType, body *ast.BlockStmt, fr *frame, held 
 	if !w.stmts(body.List) {
 		w.exit(body.Rbrace)
 	}
+	w.endLabels(body.Rbrace)
 	w.runDefers()
 	w.fr, w.held, w.sc, w.brk, w.label = sv.fr, sv.held, sv.sc, sv.brk, sv.label
 }
@@ -214,6 +233,13 @@ func (w *walker) runLit(lit *ast.FuncLit, mode int, sc *scope) {
 	}
 	w.active[lit] = true
 	defer delete(w.active, lit)
+	defer func(c string) { w.ctx = c }(w.ctx)
+	switch mode {
+	case modeCallback:
+		w.ctx = "cb"
+	case modeGo:
+		w.ctx = "go"
+	}
 	switch mode {
 	case modeSync:
 		w.runBody(lit.Type, lit.Body, &frame{extra: w.fr.extra, addEntry: w.fr.addEntry, inSum: w.fr.inSum}, w.held.clone(), sc)
@@ -258,6 +284,7 @@ func (w *walker) runDefers() {
 		sv := *w
 		nf.entry, nf.deferred = d.must.clone(), set{}
 		w.fr, w.held, w.sc = nf, d.must.clone(), d.sc
+		w.atomCall(d.call, false, true)
 		w.invoke(d.call, false)
 		w.fr, w.held, w.sc = sv.fr, sv.held, sv.sc
 	}
@@ -296,9 +323,15 @@ func (w *walker) loopEnd(b *breakable, pos token.Pos) {
 }
 
 func (w *walker) stmts(list []ast.Stmt) bool {
-	for _, s := range list {
-		if w.stmt(s) {
-			return true // the rest is unreachable (goto is rejected)
+	for i := 0; i < len(list); i++ {
+		if w.stmt(list[i]) {
+			// the rest is unreachable (goto is rejected), except, in lenient mode, from a label
+			// that an earlier goto jumps forward to
+			j := w.resumeAt(list[i+1:])
+			if j < 0 {
+				return true
+			}
+			i += j
 		}
 	}
 	return false
@@ -312,7 +345,7 @@ func (w *walker) stmt(s ast.Stmt) bool {
 		w.expr(s.X)
 		return w.terminating(s.X)
 	case *ast.IncDecStmt:
-		w.expr(s.X)
+		w.exprAcc(s.X, "w")
 	case *ast.SendStmt:
 		w.expr(s.Chan)
 		w.expr(s.Value)
@@ -334,6 +367,7 @@ func (w *walker) stmt(s ast.Stmt) bool {
 		w.branch(s)
 		return true
 	case *ast.LabeledStmt:
+		w.atLabel(s)
 		w.label = s.Label.Name
 		t := w.stmt(s.Stmt)
 		w.label = ""
@@ -396,8 +430,8 @@ func (w *walker) stmt(s ast.Stmt) bool {
 				w.sc.bind(id.Name, binding{t: vt})
 			}
 		} else {
-			w.expr(s.Key)
-			w.expr(s.Value)
+			w.exprAcc(s.Key, "w")
+			w.exprAcc(s.Value, "w")
 		}
 		b := w.pushBrk(true)
 		if !w.stmt(s.Body) {
@@ -494,6 +528,9 @@ func (w *walker) clauses(list []ast.Stmt, pos token.Pos, caseExprs bool, bind fu
 }
 
 func (w *walker) branch(s *ast.BranchStmt) {
+	if w.p.lenient && w.lenientBranch(s) {
+		return
+	}
 	if s.Tok != token.BREAK && s.Tok != token.CONTINUE {
 		w.errf(s.Pos(), "%s is not supported", s.Tok)
 		return
@@ -582,7 +619,7 @@ func (w *walker) assign(s *ast.AssignStmt) {
 			if id, ok := unparen(l).(*ast.Ident); ok {
 				w.sc.setLit(id.Name, litOf(i), w.sc)
 			}
-			w.expr(l)
+			w.exprAcc(l, "w")
 		}
 		return
 	}
@@ -607,7 +644,7 @@ func (w *walker) assign(s *ast.AssignStmt) {
 		if i < len(ts) {
 			b.t = ts[i]
 		}
-		if w.p.syncKind(b.t, w.file) != "" {
+		if k := w.p.syncKind(b.t, w.file); k != "" && !(k == "mutex" && w.p.lenient) {
 			w.errf(id.Pos(), "local mutex or condition variable %s is not modelled", id.Name)
 		}
 		w.sc.bind(id.Name, b)
@@ -641,7 +678,7 @@ func (w *walker) declStmt(s *ast.DeclStmt) {
 				if len(sp.Values) == len(sp.Names) {
 					b.lit, _ = unparen(sp.Values[i]).(*ast.FuncLit)
 				}
-				if gd.Tok == token.VAR && w.p.syncKind(b.t, w.file) != "" {
+				if k := w.p.syncKind(b.t, w.file); gd.Tok == token.VAR && k != "" && !(k == "mutex" && w.p.lenient) {
 					w.errf(n.Pos(), "local mutex or condition variable %s is not modelled", n.Name)
 				}
 				w.sc.bind(n.Name, b)
@@ -689,12 +726,25 @@ func (w *walker) deferStmt(s *ast.DeferStmt) {
 
 // ---- expressions ----
 
+// exprAcc evaluates e as the location of a write ("w") or of an address-of ("addr");
+// the kind travels down the location path only (Atomicity events; nothing else depends on it).
+func (w *walker) exprAcc(e ast.Expr, acc string) {
+	w.acc = acc
+	w.expr(e)
+	w.acc = ""
+}
+
 func (w *walker) expr(e ast.Expr) {
+	acc := w.acc
+	w.acc = ""
 	switch x := e.(type) {
 	case nil, *ast.BasicLit, *ast.ArrayType, *ast.MapType, *ast.ChanType, *ast.FuncType, *ast.InterfaceType, *ast.StructType, *ast.Ellipsis:
 	case *ast.Ident:
 		if _, local := w.sc.lookup(x.Name); local {
 			return
+		}
+		if w.p.pkgVars[x.Name] != nil && w.p.locks[x.Name] == "" {
+			w.atom(x.Pos(), accKind(acc), "var "+x.Name)
 		}
 		if w.p.locks[x.Name] != "" {
 			w.errf(x.Pos(), "mutex %s used as a value (aliasing is not modelled)", x.Name)
@@ -703,16 +753,20 @@ func (w *walker) expr(e ast.Expr) {
 			w.record(x.Pos(), []*ast.FuncDecl{d}, nil, false, true)
 		}
 	case *ast.ParenExpr:
-		w.expr(x.X)
+		w.exprAcc(x.X, acc)
 	case *ast.StarExpr:
-		w.expr(x.X)
+		w.exprAcc(x.X, acc)
 	case *ast.UnaryExpr:
-		w.expr(x.X)
+		if x.Op == token.AND {
+			w.exprAcc(x.X, "addr")
+		} else {
+			w.expr(x.X)
+		}
 	case *ast.BinaryExpr:
 		w.expr(x.X)
 		w.expr(x.Y)
 	case *ast.IndexExpr:
-		w.expr(x.X)
+		w.exprAcc(x.X, acc)
 		w.expr(x.Index)
 	case *ast.IndexListExpr:
 		w.expr(x.X)
@@ -720,7 +774,7 @@ func (w *walker) expr(e ast.Expr) {
 			w.expr(i)
 		}
 	case *ast.SliceExpr:
-		w.expr(x.X)
+		w.exprAcc(x.X, acc)
 		w.expr(x.Low)
 		w.expr(x.High)
 		w.expr(x.Max)
@@ -743,7 +797,7 @@ func (w *walker) expr(e ast.Expr) {
 	case *ast.FuncLit:
 		w.runLit(x, modeCallback, w.sc)
 	case *ast.SelectorExpr:
-		w.selector(x)
+		w.selector(x, acc)
 	case *ast.CallExpr:
 		w.call(x, false)
 	default:
@@ -752,11 +806,12 @@ func (w *walker) expr(e ast.Expr) {
 }
 
 // selector handles x.f in value position (not the function of a call).
-func (w *walker) selector(x *ast.SelectorExpr) {
+func (w *walker) selector(x *ast.SelectorExpr, acc string) {
 	if w.isImport(x.X) {
 		return
 	}
 	p := w.p
+	baseAcc := w.atomSelector(x, acc)
 	if n := x.Sel.Name; n == "Broadcast" || n == "Signal" {
 		if _, k := w.lockName(x.X); k == "cond" { // method value of a condition variable: not a lock operation
 			w.lockBase(x.X)
@@ -766,6 +821,7 @@ func (w *walker) selector(x *ast.SelectorExpr) {
 	if in, ok := unparen(x.X).(*ast.SelectorExpr); ok && !w.isImport(in.X) {
 		if key, _ := w.fieldKey(in); p.trackedSet[key] && contains(trackedSub[key], x.Sel.Name) {
 			w.emit(event{kind: evAccess, pos: x.Pos(), name: key + "." + x.Sel.Name}, false)
+			w.atom(in.Pos(), accKind(baseAcc), key)
 			w.expr(in.X)
 			return
 		}
@@ -781,7 +837,7 @@ func (w *walker) selector(x *ast.SelectorExpr) {
 			w.record(x.Pos(), ds, nil, false, true)
 		}
 	}
-	w.expr(x.X)
+	w.exprAcc(x.X, baseAcc)
 }
 
 // fieldKey names the struct field x denotes ("T.f"), "" if it is not a field of an
@@ -821,8 +877,10 @@ func (w *walker) lockName(e ast.Expr) (name, kind string) {
 	e = unparen(e)
 	switch x := e.(type) {
 	case *ast.Ident:
-		if _, local := w.sc.lookup(x.Name); !local && p.locks[x.Name] != "" {
+		if b, local := w.sc.lookup(x.Name); !local && p.locks[x.Name] != "" {
 			return x.Name, p.locks[x.Name]
+		} else if local && p.lenient && p.syncKind(b.t, w.file) == "mutex" {
+			return "local " + w.n.fname + "." + x.Name, "mutex"
 		}
 	case *ast.SelectorExpr:
 		if w.isImport(x.X) {
@@ -894,7 +952,9 @@ func (w *walker) call(c *ast.CallExpr, async bool) {
 	if sel, ok := unparen(c.Fun).(*ast.SelectorExpr); ok && !w.isImport(sel.X) && w.lockCall(c, sel, async) {
 		return
 	}
+	w.prepAtomic(c)
 	w.operands(c)
+	w.atomCall(c, async, false)
 	w.invoke(c, async)
 }
 
@@ -912,6 +972,7 @@ func (w *walker) lockCall(c *ast.CallExpr, sel *ast.SelectorExpr, async bool) bo
 			case acquire:
 				w.emit(event{kind: evAcq, pos: c.Pos(), name: l}, false)
 				w.held[l] = true
+				w.acquired(l, name, c.Pos())
 			case !w.held[l]:
 				w.errf(c.Pos(), "%s of %s which was not locked in this function", name, l)
 			case w.fr.deferred[l]:
@@ -943,6 +1004,7 @@ func (w *walker) lockCall(c *ast.CallExpr, sel *ast.SelectorExpr, async bool) bo
 				return true
 			}
 			delete(w.emit(event{kind: evAcq, pos: c.Pos(), name: l}, false).may, l)
+			w.atom(c.Pos(), "wait", l)
 		}
 		return true
 	}
@@ -970,8 +1032,12 @@ func (w *walker) operands(c *ast.CallExpr) {
 			w.expr(f)
 		}
 	}
-	for _, a := range c.Args {
-		w.expr(a)
+	for i, a := range c.Args {
+		if i == 0 && w.mutatingBuiltin(c.Fun) {
+			w.exprAcc(a, "w")
+		} else {
+			w.expr(a)
+		}
 	}
 }
 
